@@ -6,6 +6,8 @@ TYPE_RULES = [
     (r"SmallVec\s*<\s*\[\s*([^;\]]+?)\s*;\s*\d+\s*\]\s*>", r"Vec<\1>"),
     (r"\bGroupVec\s*<", "Vec<"),
     (r"\bSystemExecSend\b", "SysBox"),
+    (r"Box\s*<\s*dyn\s+RunNow\s*(\+\s*Send\s*)?>", "SysBox"),
+    (r"(::)?std::sync::Arc\s*<\s*(::)?std::sync::RwLock\s*<\s*ThreadPoolWrapper\s*>\s*>", "PoolHandle"),
     (r"\bSmallVec::new\(\)", "Vec::new()"),
     (r"\bGroupVec::new\(\)", "Vec::new()"),
 ]
@@ -15,8 +17,8 @@ PUBF = [(r"(?m)^(\s*)([a-z_]+\s*:)", r"\1pub \2")]   # struct fields made visibl
 
 UNIT = dict(
     name="u1_sched",
-    prelude=["prelude.rs"],
-    contracts=["stage.vspec"],
+    prelude=["prelude.rs", "prelude_b.rs"],
+    contracts=["stage.vspec", "dispatch.vspec"],
     lib=[],
     type_rules=TYPE_RULES,
     method_renames={"iter": "vx_iter", "into_iter": "vx_into_iter", "abs": "vx_abs", "extend": "vx_extend", "sort": "vx_sort", "dedup": "vx_dedup"},
@@ -32,6 +34,9 @@ UNIT = dict(
         dict(key="InsertionTarget", file=STAGE, kind="enum", name="InsertionTarget", rules=[(r"\benum", "pub enum")]),
         dict(key="Stage", file=STAGE, kind="struct", name="Stage", rules=PUBF),
         dict(key="StagesBuilder", file=STAGE, kind="struct", name="StagesBuilder", rules=PUBF),
+        dict(key="SendDispatcher", file="src/dispatch/send_dispatcher.rs", kind="struct", name="SendDispatcher", rules=PUBF),
+        dict(key="ThreadLocal", file="src/dispatch/dispatcher.rs", kind="type", name="ThreadLocal"),
+        dict(key="Dispatcher", file="src/dispatch/dispatcher.rs", kind="struct", name="Dispatcher", rules=PUBF),
         dict(text=open(__file__.replace("unit.py", "lib_a.rs")).read()),
         dict(key="Stage::new", file=STAGE, kind="fn", name="new", owner=r"impl Stage\b", emit_owner="impl Stage", sig_prefix="#[verifier::external_body]", assumed="derive(Default) of Stage (SmallVec::default) yields no groups"),
         dict(key="Conflict::add", file=STAGE, kind="fn", name="add", owner=r"impl Conflict$", emit_owner="impl Conflict"),
@@ -51,7 +56,13 @@ UNIT = dict(
         dict(key="StagesBuilder::add_group", file=STAGE, kind="fn", name="add_group", owner=SB, emit_owner="impl StagesBuilder"),
         dict(key="StagesBuilder::fetch_all_reads", file=STAGE, kind="fn", name="fetch_all_reads", owner=SB, emit_owner="impl StagesBuilder", sig_prefix=NOISO),
         dict(key="StagesBuilder::fetch_all_writes", file=STAGE, kind="fn", name="fetch_all_writes", owner=SB, emit_owner="impl StagesBuilder", sig_prefix=NOISO),
+        dict(text=open(__file__.replace("unit.py", "lib_b.rs")).read()),
+        dict(key="Stage::setup", file=STAGE, kind="fn", name="setup", owner=r"impl Stage\b", emit_owner="impl Stage", sig_prefix=NOISO),
+        dict(key="Stage::dispose", file=STAGE, kind="fn", name="dispose", owner=r"impl Stage\b", emit_owner="impl Stage", sig_prefix=NOISO),
+        dict(key="Stage::execute", file=STAGE, kind="fn", name="execute", owner=r"impl Stage\b", emit_owner="impl Stage", sig_prefix=NOISO, cfg=["parallel"]),
+        dict(key="Stage::max_threads", file=STAGE, kind="fn", name="max_threads", owner=r"impl Stage\b", emit_owner="impl Stage", cfg=["parallel"]),
+        dict(key="Stage::execute_seq", file=STAGE, kind="fn", name="execute_seq", owner=r"impl Stage\b", emit_owner="impl Stage", sig_prefix=NOISO),
         dict(key="StagesBuilder::insert", file=STAGE, kind="fn", name="insert", owner=SB, emit_owner="impl StagesBuilder",
-             sig_rules=[(r"\binsert<T>", "insert<T: System>")], body_rules=[(r"Box::new\(system\)", "vx_boxed(system)")]),
+             sig_rules=[(r"\binsert<T>", "insert<T: System>")], body_rules=[(r"Box::new\(system\)", "vx_boxed_sys(system)")]),
     ],
 )
